@@ -35,6 +35,14 @@ theorem get_complete (se : Bool) (cap : Nat) (hc : 0 < cap) (ops : List Op) (t0 
     (get se (run se (init cap) ops) now k).2 = some v :=
   Oidc.Cache.get_complete se cap hc ops t0 now k v ts ttl hm hne hs hlive
 
+/-- … at full strength: it suffices that the *live* entries fit — a `Set` of a new key into a full cache is harmless as long
+    as an entry whose lifetime has elapsed is stored (its slot is the one reclaimed) -/
+theorem get_complete_live (se : Bool) (cap : Nat) (hc : 0 < cap) (ops : List Op) (t0 now : Int) (k : String)
+    (v : Nat) (ts ttl : Int) (hm : Mono t0 ops now) (hne : NoLiveEvict se (init cap) ops)
+    (hs : spec ops k = some (v, ts, ttl)) (hlive : expiredAt se now (ts + ttl) = false) :
+    (get se (run se (init cap) ops) now k).2 = some v :=
+  Oidc.Cache.get_complete_live se cap hc ops t0 now k v ts ttl hm hne hs hlive
+
 /-! ## the regenerated obligation and the statements for the code as it is now -/
 
 /-- obligation against the regenerated facts: cache.go compares with `!now.Before(ExpiresAt)` in Get, Cleanup and the
@@ -68,5 +76,15 @@ example : NoEvict false (init 2) exOps := by
 example : spec exOps "a" = some (3, 2, 10) := by decide
 example : (get false (run false (init 2) exOps) 5 "a").2 = some 3 := by decide
 example : (get false (run false (init 2) exOps) 5 "b").2 = none := by decide
+
+/-! non-vacuity of the live-capacity form: capacity 2, "a" has expired when "c" arrives at a full cache; "b" stays observable -/
+def exOps2 : List Op := [.set 0 "a" 1 1, .set 0 "b" 2 100, .set 5 "c" 3 100]
+example : NoLiveEvict false (init 2) exOps2 := by
+  simp only [exOps2, NoLiveEvict]
+  refine ⟨?_, ?_, ?_, trivial⟩ <;> decide
+example : ¬ NoEvict false (init 2) exOps2 := by
+  simp only [exOps2, NoEvict]
+  decide
+example : (get false (run false (init 2) exOps2) 6 "b").2 = some 2 := by decide
 
 end Oidc.Props.C12
